@@ -2,6 +2,10 @@
 """Regenerates /verif/MANIFEST.json from the table below (run after adding a check)."""
 import json, subprocess
 CHECKS = {
+ "C12": dict(level="model_checking",
+   text="Exhaustive cross product, each combination explored on a fresh real broker under the controlled scheduler: 24 termination causes (DISCONNECT, drop, read error, malformed / oversized frame, second CONNECT, server-only packet, keep-alive expiry, clean/unclean takeover, backend close, engine close, send failure, token timeout, DISCONNECT followed by a drop, malformed frame followed by DISCONNECT, and 8 pre-acceptance causes incl. rejected credentials, refusing Setup, failing CONNACK write) x 6 protocol states (idle, inbound QoS 1/2 handshake open, outbound handshake open, blocked on a publish token, observer queue full) x will QoS x retain x keep-alive value; the will's Publish calls are counted at the backend and compared with 'accepted and no DISCONNECT read', content compared, online / offline-persistent / late observers checked, the requested read timeout compared with 1.5 x effective keep-alive; second pass with 1 (thorough 2) scheduling deviations placed everywhere inside each combination.",
+   note="Trusted: rewriter + scheduler shims, codec pipe, recording backend. 'Accepted' = authentication succeeded and Setup returned a session. Timers >= 100 ms fire only as events.",
+   technique="exhaustive enumeration of fault causes x protocol states, implementation under a controlled scheduler with deviation-bounded schedule exploration", design="5 (C12)"),
  "C08": dict(level="model_checking",
    text="History exploration of the real broker's outbound side: one persistent subscriber that controls its acknowledgements (PUBACK / PUBREC / PUBCOMP, in or out of order), a helper publishing at QoS 0/1/2 while it is on- or offline, windows 1-2 (thorough 3), connection loss by peer drop, broker write failing before/after the transfer, broker read failing, clean and unclean reconnects, optional QoS 0 bystander subscriber; all histories to depth 6 (thorough 8-9), each followed by a reconnect-and-acknowledge-everything epilogue; instant clause at every PUBLISH write (recorded first), store clause at every quiescence, retransmission-set / DUP / session-present clauses at every resume, nothing-lost clause at the end.",
    note="Trusted: rewriter + scheduler shims, codec pipe, recording backend, subscriber model in mc/h/subhist. Queue capacity exceeds the depth (capacity drops are out of scope). Acks are sent at quiescence.",
